@@ -42,6 +42,14 @@ func NewProcessor(gw *Gateway, tunnel *Tunnel) *Processor {
 const tunnelId = 10
 
 func (p *Processor) Process(ctx context.Context) error {
+	// the connection to the remote desktop server must not outlive the
+	// packet loop, whichever way the loop ends
+	defer func() {
+		if p.tunnel.rwc != nil {
+			p.tunnel.rwc.Close()
+		}
+	}()
+
 	for {
 		pt, sz, pkt, err := p.tunnel.Read()
 		if err != nil {
